@@ -60,7 +60,8 @@ pub uninterp spec fn utf8_of(c: char) -> Seq<u8>;
 pub assume_specification[ char::encode_utf8 ](c: char, dst: &mut [u8]) -> (r: &mut str)
     requires old(dst)@.len() >= 4,
     ensures str_bytes(r@) == utf8_of(c), 1 <= utf8_of(c).len() <= 4;
-pub assume_specification[ f64::is_finite ](f: f64) -> bool;
+pub uninterp spec fn f64_finite(f: f64) -> bool;
+pub assume_specification[ f64::is_finite ](f: f64) -> (r: bool) ensures r == f64_finite(f);
 pub assume_specification[ String::len ](s: &String) -> (r: usize)
     ensures r == str_bytes(s@).len();
 
